@@ -37,7 +37,12 @@ def _work(args):
     idents = [f"m{i}" for i in range(n)]
     texts = []
     for i, mc in enumerate(members):
-        if i == m:
+        if i == m and k == 0:
+            # the first line of the file is a line like any other: a member that scans it ($data[*]) can abort on it
+            mc["prog"]["scan"] = lang.scan("all")
+            mc["prog"]["comps"] = []
+            texts.append(f"~ id: m{i} validation-mode: raise ~ $data[*][ line_number() == 0 -> @boom = mod(5, 0) ]")
+        elif i == m:
             body = " ".join(lang.render(c) for c in mc["prog"]["comps"])
             texts.append(f"~ id: m{i} validation-mode: raise ~ $data[1*][ {body} line_number() == {k} -> @boom = mod(5, 0) ]")
         else:
@@ -133,7 +138,7 @@ def main(tier):
     for nrec in nrecs:
         for n in range(1, maxn + 1):
             for m in range(n):
-                for k in range(1, nrec):       # line 0 is the header-name row; every later line is an abort point
+                for k in range(0, nrec):       # every line is an abort point (line 0, the header-name row: a member that scans [*])
                     for method in methods:
                         items.append((common.seed(), idx, n, m, k, nrec, method))
                         idx += 1
